@@ -101,7 +101,7 @@ def execute(sc, ctx):
     if sc.get("kind") == "oriented":
         return execute_oriented(sc, ctx)
     P = "C12"
-    tgt = {name: {tuple(k): w for k, w in rows} for name, rows in sc["target"].items()}
+    tgt0 = {name: {tuple(k): w for k, w in rows} for name, rows in sc["target"].items()}
     names = netsim.names(sc["spec"])
     state = {"swaps": 0, "created": 0}
 
@@ -109,6 +109,7 @@ def execute(sc, ctx):
         state["swaps"] = L + 1
         state["final"] = G
         made, gone = rewsim.created_edges(prev, G)
+        tgt = info.get("tgt") or tgt0            # the target in force for THIS call (it may have been replaced through the setter)
         for e in made:
             d = G.edges[e]
             t = d.get(TOP)
